@@ -32,6 +32,7 @@ type Job struct {
 	ShardN    int      `json:"shard_n"`
 	ShardDepth int     `json:"shard_depth"`
 	MaxPaths  int      `json:"max_paths"`
+	MaxSteps  int64    `json:"max_steps"`
 	QTimeout  int      `json:"qtimeout_ms"`
 	Pin       *PinFile `json:"pin,omitempty"`
 	DeadlineS int      `json:"deadline_s"`
@@ -104,6 +105,9 @@ func RunJob(prog *ssa.Program, fn *ssa.Function, job Job, q *wq.Queue) Result {
 	x.Q = q
 	x.Thorough = job.Thorough
 	x.KnownFor = job.KnownFor
+	if job.MaxSteps > 0 {
+		x.MaxSteps = job.MaxSteps
+	}
 	if job.MaxPaths > 0 {
 		x.MaxPaths = job.MaxPaths
 	}
